@@ -38,6 +38,9 @@ type roundOutcome struct {
 	front   []int // global ids (100·k + position), slice order
 	tail    int
 	problem string
+	// after every straggler has returned and the bubble is quiescent: indices of the round's slice
+	// whose content is no longer what it was when the round's MeasureClockOffsets returned
+	after []int
 }
 
 func (p roundPlan) tieAt() int64 {
@@ -102,6 +105,7 @@ func runRounds(plans []roundPlan) (outs []roundOutcome, leak string) {
 		cl := &client.ReferenceClockClient{} // ONE client, shared by pointer by all rounds
 		var cancels []context.CancelFunc
 		var maxDue int64
+		var slices, snaps [][]measurements.Measurement
 		for k, p := range plans {
 			time.Sleep(time.Duration(p.t0) - time.Since(start))
 			clks := make([]client.ReferenceClock, len(p.specs))
@@ -123,6 +127,7 @@ func runRounds(plans []roundPlan) (outs []roundOutcome, leak string) {
 			cl.MeasureClockOffsets(ctx, clks, ms)
 			o := &outs[k]
 			o.ret = int64(time.Since(start))
+			slices, snaps = append(slices, ms), append(snaps, append([]measurements.Measurement(nil), ms...))
 			j := 0
 			for j < len(ms) && ms[j].Error == nil {
 				id := int((ms[j].Offset - 1) / 1000)
@@ -144,6 +149,16 @@ func runRounds(plans []roundPlan) (outs []roundOutcome, leak string) {
 			c()
 		}
 		synctest.Wait()
+		// every call of every round has returned and nothing can run any more: the slices must
+		// still be what the rounds returned (a result that was not there at the return instant
+		// did not arrive in time)
+		for k := range slices {
+			for i := range slices[k] {
+				if slices[k][i] != snaps[k][i] {
+					outs[k].after = append(outs[k].after, i)
+				}
+			}
+		}
 	}
 	if runBubble(body) {
 		leak = "deadlock"
@@ -277,6 +292,10 @@ func roundsScenario(c *lib.Ctx, plans []roundPlan) {
 		}
 		if o.tail != len(p.specs)-len(o.front) {
 			fail("c16:tail-written", "entries behind the front were modified", k)
+		}
+		if len(o.after) > 0 {
+			c.Fail("c16:written-after-return", "the result slice of a round was written after the round's MeasureClockOffsets had returned (a result that arrived after the deadline was placed in it)",
+				[]string{op}, map[string]any{"answer": ans, "round": k, "indices": fmt.Sprint(o.after)})
 		}
 	}
 	if lastRoundsLeak != "0" {
